@@ -278,10 +278,8 @@ pub fn labels_of(ty: &str, doc: &Value) -> Vec<String> {
         match v {
             Value::String(s) => {
                 let t: Vec<&str> = s.split(' ').collect();
-                let zero = |h: &str| h.bytes().all(|c| c == b'0');
-                if t.len() == 12 && t.iter().skip(1).step_by(2).all(|h| h.len() >= 64) && zero(t[9]) && zero(t[11])
-                    && !(zero(t[1]) && zero(t[3]) && t[5] == "095E45DDF417D05FB10933FFC63D474548B7FFFF7888802F07FFFFFF7D07A8A8" && zero(t[7]))
-                {
+                let canonical = "1 0000000000000000000000000000000000000000000000000000000000000000 1 0000000000000000000000000000000000000000000000000000000000000000 2 095E45DDF417D05FB10933FFC63D474548B7FFFF7888802F07FFFFFF7D07A8A8 1 0000000000000000000000000000000000000000000000000000000000000000 1 0000000000000000000000000000000000000000000000000000000000000000 1 0000000000000000000000000000000000000000000000000000000000000000";
+                if t.len() == 12 && s != canonical {
                     if let Ok(p) = vf::PointG2Inf::from_string(s) {
                         if p.is_inf().unwrap_or(false) {
                             l.push("noncanonical_identity".to_string());
